@@ -11,6 +11,7 @@ import ProfiVerif.Lemmas.StationProgress
 import ProfiVerif.Lemmas.TimedRing2Step
 import ProfiVerif.Lemmas.TimedRingCrash
 import ProfiVerif.Lemmas.TimedRingAgree
+import ProfiVerif.Lemmas.ColdStart
 
 namespace PV.C06
 open PV
@@ -682,5 +683,144 @@ example (l : Int) (hq : QInv PV.C01.cfg2 PV.C01.M3 PV.C01.adr3 PV.C01.net3a 2 PV
   holder_crash_claim PV.C01.cfg2 PV.C01.cfg2_ok PV.C01.M3 PV.C01.adr3 2 PV.C01.ns3c l (max 68 (l + 8000)) evsQ PV.C01.net3a hq
     (by show (68 : Int) ≤ max 68 (l + 8000); omega) (by show l + 8000 ≤ max 68 (l + 8000); omega)
     (schedXT_ap 100 90 (by decide) (by decide) 95 68)
+
+/-! ## Ring level (timed): cold start, phase (a1) — the first claim (C02 "the ring forms") -/
+
+/-- The poll at which the first time-out of the silent cold start has run out: that station claims the token. -/
+theorem cold_start_claim_step (n : Net) (lst : Nat → Int) (h : CS0 n lst) (j : Nat) (hj : j < n.stations.length) (now : Int)
+    (hown : n.bus.seen.getD j 0 < now) (st : NetStation) (hst : n.stations[j]? = some st)
+    (hexp : lst j + (st.s.p.tokenLostTimeout : Nat) ≤ now) (hsync : st.s.p.bits 33 < st.s.p.tokenLostTimeout) :
+    ∃ n' c, n.poll j now = (n', [], some (.ok c)) ∧ c.tx = some (selfToken st.s.p.address) ∧
+      c.s.st = .claimToken .secondToken ∧ Inv c.s c.apps ∧ n'.stations = n.stations.set j (upSt st c) := by
+  obtain ⟨st', hst', hL, hls⟩ := h.st j hj
+  rw [hst] at hst'
+  cases hst'
+  obtain ⟨coll, hs⟩ := hL.lis
+  obtain ⟨c, hc, hinv, htx, hcs, -, -, -⟩ := claim_progress { s := st.s, apps := st.apps, rx := [] } now (lst j) hL.inv
+    hL.son rfl rfl hL.stamp (.inl ⟨none, coll, hs⟩) (by show (now - lst j).natAbs ≥ st.s.p.tokenLostTimeout; omega)
+    (by show lst j + (st.s.p.bits 33 : Nat) < now; omega)
+  have hp' : st.s.poll st.apps now (Bus.transmitting { n.bus with seen := n.bus.seen.set j now } j now)
+      (st.rx ++ []) = .ok c := by
+    rw [transmitting_seen, hL.rx, Bus.transmitting_nil _ _ _ h.txs]; exact hc
+  have hpe := Net.poll_eq n j now st _ [] c hst hL.alive hL.online (Bus.deliver_nil n.bus j now h.txs) hp'
+  exact ⟨_, c, hpe, htx, hcs, hinv, rfl⟩
+
+/-- Run of the silent cold start up to the first claim (`L` = the station whose time-out runs out first,
+`T` = that instant, `lim` = latest time of the claim): every poll returns regularly and receives nothing; nobody
+transmits before `L`'s first poll at or after `T`, which happens no later than `lim` and transmits the token
+addressed to `L` itself (`ClaimToken`); all other station records are still untouched. -/
+def FirstClaimRun (L aL : Nat) (T lim : Int) : Net → List (Nat × Int) → Prop
+  | _, [] => True
+  | n, (i, now) :: rest =>
+    ∃ n' c, n.poll i now = (n', [], some (.ok c)) ∧
+      ((c.tx = none ∧ (i = L → now < T) ∧ n'.stations = n.stations ∧ FirstClaimRun L aL T lim n' rest) ∨
+       (i = L ∧ T ≤ now ∧ now ≤ lim ∧ c.tx = some (selfToken aL) ∧ c.s.st = .claimToken .secondToken ∧
+          ∀ j, j ≠ L → n'.stations[j]? = n.stations[j]?))
+
+/-- **Cold start, phase (a1): the first claim** (C02 "the ring forms", first step; any number of stations).
+All stations are online and listen on a bus on which nothing has been transmitted (`CS0`: `ListenToken`, empty
+buffers, stamps `lst j` not later than their last polls).  Station `L` is the one whose token-lost time-out runs
+out first, with a stagger: `T = lst L + Tto_L`, `T + P < lst j + Tto_j` for every other station `j`
+(`claim_staggered`: the time-outs of stations that started counting together differ by at least two slot times
+per address), and `L` was last polled before `T`.  Every station is polled at least every `P` µs.  Then
+(`FirstClaimRun`): every poll returns regularly; nobody transmits before `L`'s first poll at or after `T`, and
+that poll — no later than `T + P` — transmits the self-addressed token and leaves `L` in
+`ClaimToken(SecondToken)`; all other stations are still listening, untouched. -/
+theorem cold_start_first_claim (P : Nat) (lst : Nat → Int) (L : Nat) (stL : NetStation) :
+    ∀ (evs : List (Nat × Int)) (n : Net) (tl : Int), CS0 n lst → n.stations[L]? = some stL →
+    stL.s.p.bits 33 < stL.s.p.tokenLostTimeout →
+    n.bus.seen.getD L 0 < lst L + (stL.s.p.tokenLostTimeout : Nat) →
+    (∀ j st, j ≠ L → n.stations[j]? = some st →
+      lst L + (stL.s.p.tokenLostTimeout : Nat) + (P : Nat) < lst j + (st.s.p.tokenLostTimeout : Nat)) →
+    SchedN P n tl evs →
+    FirstClaimRun L stL.s.p.address (lst L + (stL.s.p.tokenLostTimeout : Nat))
+      (lst L + (stL.s.p.tokenLostTimeout : Nat) + (P : Nat)) n evs := by
+  intro evs
+  induction evs with
+  | nil => intro _ _ _ _ _ _ _ _; trivial
+  | cons ev rest ih =>
+    intro n tl h hL hsync hseenL hstag hs
+    obtain ⟨i, now⟩ := ev
+    obtain ⟨hi, htl, hown, hgap, hrest⟩ := hs
+    have hLl : L < n.stations.length := by
+      rcases Nat.lt_or_ge L n.stations.length with h' | h'
+      · exact h'
+      · rw [List.getElem?_eq_none_iff.2 h'] at hL; cases hL
+    have hgL := hgap L hLl
+    obtain ⟨sti, hsti, hLi, hlsi⟩ := h.st i hi
+    by_cases hiL : i = L
+    · subst hiL
+      rw [hL] at hsti; cases hsti
+      by_cases hw : now < lst i + (stL.s.p.tokenLostTimeout : Nat)
+      · obtain ⟨n', c, hp, htx, h', hsame⟩ := cs0_wait h i hi now hown stL hL hw
+        refine ⟨n', c, hp, .inl ⟨htx, fun _ => hw, hsame, ?_⟩⟩
+        have hn' : (n.poll i now).1 = n' := by rw [hp]
+        rw [hn'] at hrest
+        have hseen' : n'.bus.seen.getD i 0 = now := by
+          have := Net.poll_seenN n i now
+          rw [hp] at this
+          simp only at this
+          rw [this, seen_set_self _ _ _ (by rw [h.seenlen]; exact hi)]
+        exact ih n' now h' (by rw [hsame]; exact hL) hsync (by rw [hseen']; exact hw)
+          (fun j st hj hst => hstag j st hj (by rw [← hsame]; exact hst)) hrest
+      · obtain ⟨n', c, hp, htx, hcs, -, hset⟩ := cold_start_claim_step n lst h i hi now hown stL hL (by omega) hsync
+        refine ⟨n', c, hp, .inr ⟨rfl, by omega, by omega, htx, hcs, ?_⟩⟩
+        intro j hj
+        rw [hset, List.getElem?_set_ne (Ne.symm hj)]
+    · have hw : now < lst i + (sti.s.p.tokenLostTimeout : Nat) := by
+        have := hstag i sti hiL hsti
+        omega
+      obtain ⟨n', c, hp, htx, h', hsame⟩ := cs0_wait h i hi now hown sti hsti hw
+      refine ⟨n', c, hp, .inl ⟨htx, fun e => absurd e hiL, hsame, ?_⟩⟩
+      have hn' : (n.poll i now).1 = n' := by rw [hp]
+      rw [hn'] at hrest
+      have hseen' : n'.bus.seen.getD L 0 = n.bus.seen.getD L 0 := by
+        have := Net.poll_seenN n i now
+        rw [hp] at this
+        simp only at this
+        rw [this, seen_set_other _ _ _ _ hiL]
+      exact ih n' now h' (by rw [hsame]; exact hL) hsync (by rw [hseen']; exact hseenL)
+        (fun j st hj hst => hstag j st hj (by rw [← hsame]; exact hst)) hrest
+
+/-! Non-vacuity of phase (a1): stations 3 and 5 (parameters of the C13 example, `Tslot` = 400 µs) listen since
+their first polls at 0 and 50 µs; token-lost time-outs 4800 µs and 6400 µs; both polled every 100 µs.  Station 3
+claims at its poll at 4800 µs. -/
+open PV.C13 in
+def sL3 : Station := { (Station.new pR3) with online := true, st := .listenToken none 0, lastBusActivity := some 0 }
+open PV.C13 in
+def sL5 : Station := { (Station.new pR5) with online := true, st := .listenToken none 0, lastBusActivity := some 50 }
+def netL : Net :=
+  { bus := { rate := 500000, txs := [], seen := [0, 50] },
+    stations := [{ s := sL3, apps := [], online := true }, { s := sL5, apps := [], online := true }] }
+def lstL (j : Nat) : Int := if j = 0 then 0 else 50
+
+open PV.C13 in
+theorem cs0L : CS0 netL lstL := by
+  refine ⟨rfl, rfl, ?_⟩
+  intro j hj
+  have : j = 0 ∨ j = 1 := by simp only [netL, List.length_cons, List.length_nil] at hj; omega
+  have hinv3 : Inv sL3 [] := by
+    have h := inv_new pR3 [] (by decide) (by decide) (by intro s hs; cases hs)
+    exact ⟨h.addr, h.hsa, h.ring, fun ho => by simp [sL3] at ho, h.gap, fun a ha => by simp [sL3] at ha,
+      fun a ha => by simp [sL3] at ha, h.app, fun a d ha => by simp [sL3] at ha, h.scripts, by simp [sL3]⟩
+  have hinv5 : Inv sL5 [] := by
+    have h := inv_new pR5 [] (by decide) (by decide) (by intro s hs; cases hs)
+    exact ⟨h.addr, h.hsa, h.ring, fun ho => by simp [sL5] at ho, h.gap, fun a ha => by simp [sL5] at ha,
+      fun a ha => by simp [sL5] at ha, h.app, fun a d ha => by simp [sL5] at ha, h.scripts, by simp [sL5]⟩
+  rcases this with rfl | rfl
+  · exact ⟨_, rfl, ⟨rfl, rfl, hinv3, rfl, rfl, ⟨0, rfl⟩, rfl⟩, by decide⟩
+  · exact ⟨_, rfl, ⟨rfl, rfl, hinv5, rfl, rfl, ⟨0, rfl⟩, rfl⟩, by decide⟩
+
+def evsL : List (Nat × Int) := [(0, 100), (1, 150), (0, 200), (1, 250), (0, 300), (1, 350), (0, 400), (1, 450), (0, 500), (1, 550), (0, 600), (1, 650), (0, 700), (1, 750), (0, 800), (1, 850), (0, 900), (1, 950), (0, 1000), (1, 1050), (0, 1100), (1, 1150), (0, 1200), (1, 1250), (0, 1300), (1, 1350), (0, 1400), (1, 1450), (0, 1500), (1, 1550), (0, 1600), (1, 1650), (0, 1700), (1, 1750), (0, 1800), (1, 1850), (0, 1900), (1, 1950), (0, 2000), (1, 2050), (0, 2100), (1, 2150), (0, 2200), (1, 2250), (0, 2300), (1, 2350), (0, 2400), (1, 2450), (0, 2500), (1, 2550), (0, 2600), (1, 2650), (0, 2700), (1, 2750), (0, 2800), (1, 2850), (0, 2900), (1, 2950), (0, 3000), (1, 3050), (0, 3100), (1, 3150), (0, 3200), (1, 3250), (0, 3300), (1, 3350), (0, 3400), (1, 3450), (0, 3500), (1, 3550), (0, 3600), (1, 3650), (0, 3700), (1, 3750), (0, 3800), (1, 3850), (0, 3900), (1, 3950), (0, 4000), (1, 4050), (0, 4100), (1, 4150), (0, 4200), (1, 4250), (0, 4300), (1, 4350), (0, 4400), (1, 4450), (0, 4500), (1, 4550), (0, 4600), (1, 4650), (0, 4700), (1, 4750), (0, 4800), (1, 4850), (0, 4900), (1, 4950)]
+
+example : FirstClaimRun 0 3 4800 4900 netL evsL :=
+  cold_start_first_claim 100 lstL 0 { s := sL3, apps := [], online := true } evsL netL 50 cs0L rfl (by decide) (by decide)
+    (by
+      intro j st hj hst
+      have : j = 1 ∨ 2 ≤ j := by omega
+      rcases this with rfl | h2
+      · cases hst; decide
+      · simp [netL, h2] at hst)
+    (schedN_of_times _ _ _ _ (schedNT_of_b 100 2 evsL [0, 50] 50 (by decide)))
 
 end PV.C06
